@@ -16,6 +16,8 @@ Streams (all compared with the Lean model `Clikit.Tokenizer`, all judged by `ora
   a  the same rendering over a command-line vocabulary, and then StringArgs(string) against
      ArgvArgs([script] + tokens): tokens, option_tokens, the real DefaultArgsParser on a fixed format
      (strict and lenient), the real resolver and `create_io` of a small application.
+  v  argv lists given to ArgvArgs directly (script name first; the empty list raises IndexError in the
+     implementation and in the model, and the oracle demands nothing there).
   d  a few deeply nested strings (alternating quotes) - the recursion of `_parse_quoted_string`.
 
 The oracle is the property statement over the implementation's behaviour; it uses its own Python
@@ -54,7 +56,7 @@ RULE = ("s: exhaustive strings up to length 5 (quick) / 7 (thorough) over {a,spa
         "also quoted as a token in both quote styles, plus seeded random strings of length 0-12 over the wide alphabet; q: seeded random token lists (0-4 tokens x 0-5 chars over letters, "
         "ASCII/non-ASCII whitespace, quotes, backslash, '-', '=', non-ASCII) x style per token x separators, plus a negative "
         "sub-stream violating one round-trip hypothesis; a: command-line vocabulary rendered the same way, string form vs "
-        "argv form through parser, resolver and create_io; d: nesting depth probes.  Non-trivial = the input contains a "
+        "argv form through parser, resolver and create_io; v: argv lists over the same vocabulary given to ArgvArgs directly; d: nesting depth probes.  Non-trivial = the input contains a "
         "quote or a backslash, or yields at least two tokens; distinct = distinct (stream, input string)")
 TRUSTED_BASE = [
     "Lean 4.33 kernel; axioms propext, Classical.choice, Quot.sound only (audited per theorem on every run)",
@@ -267,6 +269,11 @@ def generate(tier, rng):
     # (reported, and clears the `exhaustive` flag) never starves one stream completely
     for case in _single_tokens(4 if quick else 5):
         yield case
+    yield {"k": "v", "argv": []}
+    for _ in range(na // 4):
+        n = rng.choice([1, 1, 2, 3, 4, 5])
+        yield {"k": "v", "argv": [rng.choice(VOCAB) if rng.random() < 0.8 else _rand_token(rng, rng.random() < 0.7)
+                                  for _ in range(n)]}
     for _ in range(na):
         yield _gen_a(rng)
     for _ in range(nq):
@@ -400,6 +407,8 @@ def _through_clikit(make_raw):
 def run_impl(case):
     from clikit.args import StringArgs, ArgvArgs
     k = case["k"]
+    if k == "v":
+        return {"string": "", "raw": _argv_raw(case["argv"])}
     if k in ("s", "d"):
         s = case["s"]
         obs = {"string": s, "raw": _string_raw(s)}
@@ -423,6 +432,8 @@ def run_impl(case):
 # ------------------------------------------------------------------ model side
 def model_requests(case):
     k = case["k"]
+    if k == "v":
+        return [{"m": "c08.argv", "argv": case["argv"]}]
     if k in ("s", "d"):
         s = case["s"]
         reqs = [{"m": "c08.tokenize", "s": s}]
@@ -448,6 +459,8 @@ def _m_raw(ans):
 
 def model_obs(case, answers):
     k = case["k"]
+    if k == "v":
+        return {"string": "", "raw": _m_raw(answers[0])}
     if k in ("s", "d"):
         out = {"string": case["s"], "raw": _m_raw(answers[0])}
         if len(answers) == 3:
@@ -475,6 +488,16 @@ def _same(a, b, what):
 def oracle(case, obs):
     s = obs["string"]
     raw = obs["raw"]
+    if case["k"] == "v":
+        # the argv form on its own: everything after the script name is a token, option tokens stop at `--`
+        argv = case["argv"]
+        if not argv:
+            return None  # ArgvArgs([]) is not the argv form of any command line; nothing is demanded
+        if "exc" in raw:
+            return "ArgvArgs(%r) raised %s" % (argv, raw["exc"])
+        if raw["tokens"] != argv[1:] or raw["option_tokens"] != py_before_dashes(argv[1:]):
+            return "ArgvArgs(%r): tokens %r, option_tokens %r" % (argv, raw["tokens"], raw["option_tokens"])
+        return None
     # 1. tokenising terminates without an error, for every string
     if "exc" in raw:
         return "StringArgs(%r) raised %s" % (s, raw["exc"])
@@ -523,6 +546,8 @@ def oracle(case, obs):
 
 # ------------------------------------------------------------------ statistics, search
 def nontrivial_key(case, obs):
+    if case["k"] == "v":
+        return "v:" + repr(case["argv"]) if "--" in case["argv"][1:] else None
     s = obs["string"]
     toks = obs["raw"].get("tokens", [])
     if any(c in s for c in "'\"\\") or len(toks) >= 2:
@@ -534,6 +559,8 @@ def bucket(case, obs):
     s = obs["string"]
     k = case["k"]
     raw = obs["raw"]
+    if k == "v":
+        return "v n=%d %s" % (len(case["argv"]), raw.get("exc") or ("with --" if "--" in raw["tokens"] else "no --"))
     feats = "".join(f for f, on in (("q", any(c in s for c in QUOTES)), ("b", "\\" in s),
                                    ("w", any(c.isspace() for c in s)), ("u", any(ord(c) > 127 for c in s)),
                                    ("-", "--" in raw.get("tokens", []))) if on) or "plain"
@@ -585,6 +612,11 @@ def _edits(s, alphabet):
 
 def shrink(case):
     k = case["k"]
+    if k == "v":
+        a = case["argv"]
+        for i in range(len(a)):
+            yield {"k": "v", "argv": a[:i] + a[i + 1:]}
+        return
     if k in ("s", "d"):
         s = case["s"]
         for i in range(len(s)):
@@ -614,6 +646,12 @@ def shrink(case):
 
 def neighbours(case):
     k = case["k"]
+    if k == "v":
+        a = case["argv"]
+        for i in range(len(a) + 1):
+            for t in ("--", "-v", "x"):
+                yield {"k": "v", "argv": a[:i] + [t] + a[i:]}
+        return
     if k in ("s", "d"):
         s = case["s"]
     else:
